@@ -6,6 +6,8 @@ import (
 	"fmt"
 	"io"
 	"net"
+	"strconv"
+	"strings"
 	"sync"
 	"time"
 
@@ -59,6 +61,60 @@ const (
 	FRawResp  = "rawresp"  // raw exchange: an arbitrary length prefix and payload, then close or silence
 	FRawCut   = "rawcut"   // raw exchange: the genuine response cut at a byte position, then close or silence
 )
+
+// FErrPrefix: fault kinds "err:<code hex, signed>:<null|empty|text|->": the framed response of
+// the fault step carries this error code; for SaslAuthenticate the nullable error_message is
+// null, the empty string or a text ("-": the response has no message field).  Code 0 is no
+// refusal: the genuine response goes out (with that message).
+const FErrPrefix = "err:"
+
+// ParseErrKind decodes an "err:" fault kind.
+func ParseErrKind(kind string) (code int16, mode string, ok bool) {
+	if !strings.HasPrefix(kind, FErrPrefix) {
+		return 0, "", false
+	}
+	f := strings.Split(kind[len(FErrPrefix):], ":")
+	if len(f) != 2 {
+		return 0, "", false
+	}
+	neg := strings.HasPrefix(f[0], "-")
+	v, err := strconv.ParseInt(strings.TrimPrefix(f[0], "-"), 16, 32)
+	if err != nil {
+		return 0, "", false
+	}
+	if neg {
+		v = -v
+	}
+	return int16(v), f[1], true
+}
+
+// encodeAuthResponse writes a SaslAuthenticate response by hand: protocol.WriteResponse
+// cannot produce an EMPTY (non-null) error_message.
+func encodeAuthResponse(ver int16, corr int32, code int16, mode string, auth []byte) []byte {
+	var b []byte
+	put16 := func(v int16) { b = append(b, byte(uint16(v)>>8), byte(v)) }
+	put32 := func(v int32) { b = append(b, byte(uint32(v)>>24), byte(uint32(v)>>16), byte(uint32(v)>>8), byte(v)) }
+	put32(0)
+	put32(corr)
+	put16(code)
+	switch mode {
+	case "null":
+		put16(-1)
+	case "empty":
+		put16(0)
+	default:
+		msg := "Authentication failed: injected refusal"
+		put16(int16(len(msg)))
+		b = append(b, msg...)
+	}
+	put32(int32(len(auth)))
+	b = append(b, auth...)
+	if ver >= 1 {
+		b = append(b, 0, 0, 0, 0, 0, 0, 0, 0) // session_lifetime_ms
+	}
+	binary.BigEndian.PutUint32(b[:4], uint32(len(b)-4))
+	return b
+}
 
 // Journal is what the broker saw on one connection.
 type Journal struct {
@@ -347,7 +403,13 @@ func serve(c net.Conn, sc *Script, j *Journal) {
 			if sc.AuthMax != Absent {
 				res.ApiKeys = append(res.ApiKeys, apiversions.ApiKeyResponse{ApiKey: int16(protocol.SaslAuthenticate), MaxVersion: int16(sc.AuthMax)})
 			}
-			if kind == FUnsup || kind == FAuthFail {
+			if code, _, ok := ParseErrKind(kind); ok {
+				res.ErrorCode = code
+				kind = FNone
+				if code != 0 {
+					j.setFailed()
+				}
+			} else if kind == FUnsup || kind == FAuthFail {
 				res.ErrorCode = map[string]int16{FUnsup: 33, FAuthFail: 58}[kind]
 				kind = FNone
 				j.setFailed()
@@ -373,7 +435,14 @@ func serve(c net.Conn, sc *Script, j *Journal) {
 			} else {
 				srv = NewServer(req.Mechanism, sc.DB, sc.SNonce)
 			}
-			if kind == FUnsup || kind == FAuthFail {
+			if code, _, ok := ParseErrKind(kind); ok {
+				res.ErrorCode = code
+				kind = FNone
+				if code != 0 {
+					j.setFailed()
+					srv = nil
+				}
+			} else if kind == FUnsup || kind == FAuthFail {
 				res.ErrorCode = map[string]int16{FUnsup: 33, FAuthFail: 58}[kind]
 				kind = FNone
 				j.setFailed()
@@ -405,6 +474,23 @@ func serve(c net.Conn, sc *Script, j *Journal) {
 				res.ErrorMessage = "Authentication failed: Invalid username or password"
 				res.AuthBytes = nil
 				j.setFailed()
+			}
+			if code, mode, ok := ParseErrKind(kind); ok {
+				// error code and error_message chosen by the script; code 0: the genuine response
+				auth := res.AuthBytes
+				if code != 0 {
+					auth = nil
+					j.setFailed()
+				} else if err != nil {
+					code = res.ErrorCode
+				}
+				if _, werr := c.Write(encodeAuthResponse(ver, corr, code, mode, auth)); werr != nil {
+					return
+				}
+				if done && err == nil && code == 0 {
+					j.setVerdict()
+				}
+				continue
 			}
 			switch kind {
 			case FNone:
